@@ -20,6 +20,10 @@ CQ = 'photutils.centroids.core.centroid_quadratic'
 def paired_slicing(repo, res):
     f = repo.get_function(CS)
     subs = subscripts_using(f.node, {'data', 'mask', 'error', 'footprint_mask'})
+    # the negated footprint cut directly: np.logical_not(footprint)[idx] / (~footprint)[idx]
+    for n_ in ast.walk(f.node):
+        if isinstance(n_, ast.Subscript) and isinstance(n_.ctx, ast.Load) and nf(n_.value) == 'not(footprint)':
+            subs.append(('footprint_mask', nf(n_.slice), n_))
     want = {'data': 'slices_large', 'mask': 'slices_large', 'error': 'slices_large', 'footprint_mask': 'slices_small'}
     seen = set()
     for base, idx, node in subs:
